@@ -319,7 +319,7 @@ def c_resp_of(resp):
     return "{| pre_retries := 0; rbody := %s |}" % body
 
 
-POOL_HEADER = "From AM.Model Require Import Base Download Stage Pipeline Converge."
+POOL_HEADER = "From AM.Model Require Import Base Download Stage Pipeline Converge RepoRun."
 POOL_DEFS = """
 Definition same_sizes (t : lfs) (want : list (string * N)) : bool :=
   Nat.eqb (List.length t) (List.length want) &&
@@ -346,11 +346,22 @@ Definition entry_ok (fs : lfs) (e : string * option (N * Z)) : bool :=
   | Some i, Some (n, z) => N.eqb (fsize i) n && match fmt i with Date d => Z.eqb d z | Local => true end
   | _, _ => false
   end.
-(* (has_errors, has_missing, every path of every queued file as on disk after the stage) *)
-Definition m_meta (c : list dfile * upstream * lfs * list (string * option (N * Z))) : bool * bool * bool :=
-  match c with (files, u, fs, after) =>
+Definition view_ok (view : list (string * option finfo)) (pub : list (string * (N * Z))) : bool :=
+  forallb (fun e => match snd e with
+                    | Some i => existsb (fun q => String.eqb (fst q) (fst e) && N.eqb (fst (snd q)) (fsize i) &&
+                                                  match fmt i with Date d => Z.eqb d (snd (snd q)) | Local => true end) pub
+                    | None => false
+                    end) view &&
+  forallb (fun q => existsb (fun e => String.eqb (fst q) (fst e)) view) pub.
+(* (has_errors, has_missing, every path of every queued file as on disk after the stage AND, when the repository
+   was published, RepoRun.staged_view = the index files found below the live dists) *)
+Definition m_meta (c : list dfile * upstream * lfs * list (string * option (N * Z)) * option (list (string * (N * Z))))
+  : bool * bool * bool :=
+  match c with (files, u, fs, after, pub) =>
     let '(rs, fs') := run_stage false files u fs in
-    (has_errors rs, has_missing rs, forallb (entry_ok fs') after)
+    (has_errors rs, has_missing rs,
+     forallb (entry_ok fs') after &&
+     match pub with None => true | Some l => view_ok (staged_view files rs fs') l end)
   end.
 """
 
@@ -387,7 +398,7 @@ def c_upstream(paths, files, faults):
     return clist(u_terms)
 
 
-def meta_tie_row(o, files, faults):
+def meta_tie_row(o, files, faults, published=None):
     """the metadata stage of one repository of one real run as a Stage.run_stage case: real queue (by-hash
     aliases, compression variants), real previous skel tree, scripted answers; expected: the two counters and
     (size, mtime) of every path of every queued file after the stage"""
@@ -395,7 +406,9 @@ def meta_tie_row(o, files, faults):
     fq, paths = c_queue(o["meta_queue"])
     fs = clist("(%s, {| fsize := %s; fmt := Date %s |})" % (cstr(p), cN(sz), cZ(mt)) for p, (sz, mt) in sorted(o["meta_pre"].items()))
     after = clist(ctuple(cstr(p), copt(o["meta_post"].get(p), lambda t: ctuple(cN(t[0]), cZ(t[1])))) for p in paths)
-    term = ctuple(fq, c_upstream(paths, files, faults), fs, after)
+    pub = "None" if published is None else "(Some %s)" % clist(
+        ctuple(cstr(p), ctuple(cN(sz), cZ(mt))) for p, (sz, mt) in sorted(published.items()))
+    term = ctuple(fq, c_upstream(paths, files, faults), fs, after, pub)
     return term, ctuple(cbool(bool(o.get("meta_err"))), cbool(bool(o.get("meta_miss"))), "true")
 
 
